@@ -312,17 +312,28 @@ end
 /-- outcome of `cls_from_string(str(obj))` as the harness observes it -/
 inductive RtOut where
   | raised                               -- serialising or re-parsing raised / the result is unusable
-  | obj (o : Inst) (sameBytes : Bool)    -- re-parsed object; `str(o) == str(obj)`
+  /-- re-parsed object; `str(o) == str(obj)`; the tags of the root's children in the written document -/
+  | obj (o : Inst) (sameBytes : Bool) (kidTags : List QName)
+
+/-- "children (in schema order)": for each member in `_get_all_c_children_with_order` order one element
+    with the declared tag per child of that member, then the extension elements -/
+def expectedOrder (T : Nat → ClassDef) : Inst → List QName
+  | .mk c _ ss _ ee _ =>
+    ((memberOrder (T c)).flatMap fun m =>
+      match idxOf (members (T c)) m with
+      | some j => (ss.getD j []).map fun _ => (((T c).children[j]?).map (·.key)).getD default
+      | none => []) ++ ee.map (·.qname)
 
 /-- C12, first sentence, as a checker on the observed outcome -/
-def specRoundTrip (i : Inst) : RtOut → Bool
+def specRoundTrip (T : Nat → ClassDef) (i : Inst) : RtOut → Bool
   | .raised => false
-  | .obj o same => decide (normInst o = normInst i) && same
+  | .obj o same tags => decide (normInst o = normInst i) && same && decide (tags = expectedOrder T i)
 
 /-- the model's outcome -/
 def modelRoundTrip (E : Env) (i : Inst) : RtOut :=
   if !classSerialisable (E.T i.cls) || roundTripRaises E i then .raised
   else .obj (roundTrip E i) (decide (emit (serialise E.T (roundTrip E i)) = emit (serialise E.T i)))
+    ((wire (serialise E.T i)).kids.map (·.tag))
 
 /-! ### parsing a document written by someone else -/
 
